@@ -287,8 +287,8 @@ PROPS["C08"] = dict(
 
 PROPS["C09"] = dict(
     level="proof",
-    verus=["c09_order", "c09_list_optimize", "c05_grouping", "c08_shape", "c08_wiring", "c04_partition"],
-    labels=["C09.", "C08.from_wire.", "C08.to_wire.", "C08.shape.", "C05.grouping.", "C04.new.tagged"] + MASK,
+    verus=["c09_order", "c09_list_optimize", "c05_grouping", "c08_shape", "c08_wiring", "c04_partition", "c05_optimizer"],
+    labels=["C09.", "C08.from_wire.", "C08.to_wire.", "C08.shape.", "C05.grouping.", "C04.new.tagged", "C05.fusion."] + MASK,
     kani=[],
     witness=["c09_reload.rs"],
     trusted=["slice::sort_by_key sorts by the key and permutes (R6 lift)", "apply_optimisation (unit c05_grouping) regroups through a HashMap whose iteration order is arbitrary: its contract is order-free (which groups are fused, what is kept)",
